@@ -22,6 +22,23 @@ for sid in sorted(os.listdir(os.path.join(V, "seeded"))):
 caught = sum(1 for r in res.values() if r[1] == 1)
 text = ("%d of %d seeded changes are caught by the quick tier of the check of the property they break "
         "(`drivers/mutant_matrix.sh`, seed 20260928; every change confirmed as described in section 7).\n\n" % (caught, len(res))) + "\n".join(rows) + "\n"
+fr = os.path.join(V, "seeded", "FIX_REVERTS.txt")
+if os.path.exists(fr):
+    rows2 = ["| repaired defect | property | fix commit | quick check with the repair taken out |", "|---|---|---|---|"]
+    n2 = c2 = 0
+    for line in open(fr):
+        parts = line.split(None, 3)
+        if len(parts) < 4 or not re.match(r"^C\d\d$", parts[1]):
+            continue
+        n2 += 1
+        verdict = parts[3].strip()
+        if verdict.startswith("caught"):
+            c2 += 1
+            verdict = "**" + verdict.replace("caught", "caught**", 1)
+        rows2.append("| %s | %s | `%s` | %s |" % (parts[0], parts[1], parts[2], verdict))
+    text += ("\n### Repairs taken out again\n\n`drivers/fix_reverts.sh`: the reverse of each `fix:` commit applied to the working tree, then the quick check "
+             "of the property (%d of %d come back as violations; 'not-applicable' = a later repair rewrote the same lines, so the "
+             "reverse patch does not apply).\n\n" % (c2, n2)) + "\n".join(rows2) + "\n"
 p = os.path.join(V, "DESIGN.md")
 s = open(p).read()
 k = s.index("<!-- MATRIX -->")
